@@ -90,6 +90,13 @@ func ParseWriteMultipleCoilsRequestTCP(data []byte) (*WriteMultipleCoilsRequestT
 	if err != nil {
 		return nil, err
 	}
+	if len(data) < 13 {
+		tmpErr := NewErrorParseTCP(ErrIllegalDataValue, "received data length too short to be valid packet")
+		tmpErr.Packet.TransactionID = header.TransactionID
+		tmpErr.Packet.UnitID = data[6]
+		tmpErr.Packet.Function = FunctionWriteMultipleCoils
+		return nil, tmpErr
+	}
 	unitID := data[6]
 	if data[7] != FunctionWriteMultipleCoils {
 		tmpErr := NewErrorParseTCP(ErrIllegalFunction, "received function code in packet is not 0x0f")
